@@ -46,7 +46,9 @@ pub fn command(t: &TestSpec, log: &str) -> String {
         c.push_str(&format!("; sleep {}.{:03}; echo {}-late >> {}", t.sleep_ms / 1000, t.sleep_ms % 1000, t.id, log));
     }
     c.push_str(&format!("; echo out-{}{}", t.id, "x".repeat(t.pad as usize)));
-    if t.hard_exit {
+    if t.kill_self != 0 {
+        c.push_str(&format!("; kill -{} $$", t.kill_self));
+    } else if t.hard_exit {
         c.push_str(&format!("; exit {}", t.exit));
     } else if t.exit != 0 {
         c.push_str(&format!("; (exit {})", t.exit));
@@ -539,6 +541,15 @@ pub fn judge(run: &RunSpec, model: &RunModel, obs: &Observation, clauses: Clause
                                             "timed-out"
                                         } else {
                                             "after-timeout"
+                                        }
+                                    }
+                                    DocEnd::Killed { at } => {
+                                        if i < *at {
+                                            "before-killed-shell"
+                                        } else if i == *at {
+                                            "killed-shell"
+                                        } else {
+                                            "after-killed-shell"
                                         }
                                     }
                                     _ => "plain",
